@@ -12,6 +12,12 @@ def sh(cmd):
 
 
 def esc(s):
+    if isinstance(s, dict):
+        s = "; ".join("%s: %s" % (k, v if isinstance(v, str) else json.dumps(v)) for k, v in s.items())
+    elif isinstance(s, list):
+        s = " // ".join(esc(x) for x in s)
+    elif s is not None and not isinstance(s, str):
+        s = json.dumps(s)
     return (s or "").replace("|", "/").replace("\n", " ")
 
 
@@ -63,14 +69,40 @@ def main():
     for mp in sorted(glob.glob(os.path.join(ROOT, "seeded", "*", "meta.json"))):
         m = json.load(open(mp))
         det = m.get("detection", {})
-        verdict = "; ".join("%s %s" % (k, "caught" if v.get("detected") else "MISSED") for k, v in det.items()) or "not run"
+        verdict = "; ".join("%s %s%s" % (k, "caught" if v.get("detected") else "MISSED",
+                                         " (no failing input)" if v.get("detected") and all("no-failing-input-found" in l for l in (v.get("violation_lines") or ["x"])) else "")
+                            for k, v in det.items()) or "not run"
+        runs = m.get("runs") or []
+        if runs and not runs[0].get("detected") and any(v.get("detected") for v in det.values()):
+            verdict = "first run MISSED; now " + verdict
         hist = m.get("history", "")
         out.append("| %s | %s | %s — needs: %s | %s | %s |" % (m["id"], m["property"], esc(m.get("what"))[:260], esc(m.get("needs"))[:200], verdict, esc(hist)))
     out.append("")
 
+    # II.7b harmless refactorings
+    hdir = os.path.join(ROOT, "harmless")
+    if os.path.isdir(hdir):
+        out.append("### II.7b Behaviour-preserving refactorings (false-alarm probes)\n")
+        out.append("Written by fresh sub-agents from the property texts only (two per property, realistic refactorings of the "
+                   "anchored functions: helper extraction, if/switch, inverted conditions, library calls for loops, hoisted "
+                   "locals, log lines); each builds and passes the existing tests. `lib/harmless.py run` applies one in scratch "
+                   "copies and runs the quick check; the expected outcome is exit 0. An alarm here is a false alarm of a "
+                   "source-derived obligation (translator tie) that was too syntactic; the column says what was done.\n")
+        out.append("| id | property | change | quick check at HEAD | history |")
+        out.append("|---|---|---|---|---|")
+        for mp in sorted(glob.glob(os.path.join(hdir, "*", "meta.json"))):
+            m = json.load(open(mp))
+            r = m.get("result") or {}
+            runs = m.get("runs") or []
+            first = runs[0].get("alarm") if runs else None
+            now = ("ALARM (%s)" % esc("; ".join(r.get("violation_lines") or ["exit %s" % r.get("exit")]))[:90]) if r.get("alarm") else ("quiet" if r else "not run")
+            hist = ("first run ALARM; " if first and not r.get("alarm") else "") + esc(m.get("note", ""))
+            out.append("| %s | %s | %s: %s | %s | %s |" % (m["id"], m["property"], esc(m.get("kind"))[:80], esc(m.get("what"))[:240], now, hist))
+        out.append("")
+
     # II.8 notes
     out.append("## II.8 Per-property notes (as built)\n")
-    for q in sorted(glob.glob(os.path.join(ROOT, "notes", "C[0-9][0-9].md"))) + [os.path.join(ROOT, "notes", "SKEL.md")]:
+    for q in sorted(glob.glob(os.path.join(ROOT, "notes", "C[0-9][0-9].md"))) + [os.path.join(ROOT, "notes", "SKEL.md"), os.path.join(ROOT, "notes", "DEC.md")]:
         if not os.path.exists(q):
             continue
         pid = os.path.basename(q)[:-3]
